@@ -78,6 +78,8 @@ func genProgram(r *rng.R, idx int) (map[string]string, string) {
 		fmt.Fprintf(&b, "enum E%d {\n  A = 1%s,\n  B = 2%s,\n  C = 5\n}%s\n\n", i, annos(r, 0), annos(r, 2), annos(r, 2))
 		fmt.Fprintf(&b, "struct S%d {\n  1: required i64 id%s,\n  2: optional string name = \"n\"%s,\n  3: map<string, i32> m = {\"a\": 1, \"b\": 2, \"c\": 3}%s,\n  4: list<E%d> es,\n}%s\n\n", i, annos(r, 2), annos(r, 0), annos(r, 2), i, annos(r, 2))
 		fmt.Fprintf(&b, "exception X%d {\n  1: string msg%s\n}%s\n\n", i, annos(r, 0), annos(r, 2))
+		// an exception with the SAME name in every include: sorting by unqualified name would tie
+		fmt.Fprintf(&b, "exception NotFound {\n  1: string what\n}\n\n")
 		fmt.Fprintf(&b, "const map<string, i64> M%d = {\"k1\": 1, \"k2\": 2, \"k3\": 3, \"k4\": 4}\n", i)
 		fmt.Fprintf(&b, "const map<i32, list<string>> ML%d = {1: [\"a\"], 2: [\"b\", \"c\"], 3: []}\n", i)
 		fmt.Fprintf(&b, "typedef map<string, S%d> T%d%s\n", i, i, annos(r, 0))
@@ -120,6 +122,10 @@ func genProgram(r *rng.R, idx int) (map[string]string, string) {
 			}
 			for k, i := range perm[:r.Range(1, ninc)] {
 				throws = append(throws, fmt.Sprintf("%d: p%d_inc%d.X%d e%d", k+1, idx, i, i, i))
+			}
+			// homonymous exceptions from every include, in a random order
+			for k, i := range perm {
+				throws = append(throws, fmt.Sprintf("%d: p%d_inc%d.NotFound nf%d", 20+k, idx, i, i))
 			}
 			fmt.Fprintf(&b, "  M0 call%d_%d(1: M%d req, 2: U u%s) throws (%s)%s,\n", s, f, r.Intn(nst), annos(r, 0), strings.Join(throws, ", "), annos(r, 2))
 		}
